@@ -24,6 +24,9 @@ CHECKS = {
     "C08": dict(level="translation_validation", tech="SMT pattern semantics: z3 decides exhaustiveness of each arm list over all scrutinee values and is compared with the real checker's verdict; accepted matches are translation-validated; reported witnesses are checked by sat/unsat queries",
                 text="For thousands of arm lists (exact covers perturbed at their boundaries) over bool/int/enum/tuple/struct scrutinees: checker accepts <=> solver says exhaustive; circuit = first matching arm with its bindings for all values; every reported missing case matches some value and no matched value.",
                 note="Trusted: matches(p, v) in engine/tv/ref.py written from the guide. Arm lists are seeded, <= 8 arms, nesting <= 2.", ref="DESIGN.md section 4, C08"),
+    "C09": dict(level="model_checking", tech="bounded model checking of the real literal codec with Kani/CBMC (symbolic 64-bit payloads and bit patterns) + SMT translation validation of identity programs for aggregate layouts",
+                text="Scoped to primitive types and ranges: Kani proves on the real Literal::{is_of_type, as_bits, from_unwrapped_bits} that an accepted literal encodes to exactly size(T) bits in the documented big-endian two's-complement layout, that every bit pattern decodes to the value with that layout, that the type test accepts only representable numbers / well-formed ranges and never panics. Identity programs over nested aggregate types return their argument for all bit patterns (z3).",
+                note="Out of the claim: struct / enum literals through the API (HashMap<String,_> lookups, out of CBMC's reach), Literal::Array/Tuple harnesses (time out), print/parse round trips. Stub: RandomState::new (maps stay empty).", ref="DESIGN.md section 4, C09"),
     "C10": dict(level="translation_validation", tech="SMT miter of the symbolically simulated register program (real From<&SsaCircuit>) against the SSA circuit, all inputs; structural obligations on the concrete artefact",
                 text="Compiler outputs and arbitrary well-formed gate lists (exhaustive small shapes, seeded larger ones with repeated operands/outputs, unused wires) are converted by the real allocator; outputs equal for all inputs (z3), validate() accepts, no read-before-write, input instructions in order, register count and AND count as specified.",
                 note="Circuit shapes/gate lists are enumerated or seeded; inputs symbolic. A Kani harness on the allocator is out of reach (HashMap; measured 900 s, no result).", ref="DESIGN.md section 4, C10"),
